@@ -245,7 +245,7 @@ Fixpoint upd_loop (tbl : list brow) (root : mnode) (fdb : fdb_t) (items : list (
         match stack with
         | [] => (UB, None, zone)
         | top :: _ =>
-            match fdb (pe_id top) lab with                                    (* cgio_get_node_id + cgio_get_label *)
+            match fdb (pe_id top) lab with      (* cgio_get_node_id + cgio_get_label in the file of the position (cg = cgi_get_file(posit_file), /repo fix) *)
             | None => (CG_NODE_NOT_FOUND, None, zone)
             | Some (_, flabel) => step flabel lab
             end
@@ -593,6 +593,27 @@ Definition arow_ok (ss : structs_t) (tbl : list brow) (r : arow) : bool :=
 
 Definition addr_table_ok ss tbl (t : list arow) : bool := forallb (arow_ok ss tbl) t.
 
+(* selector arms (Gen_C11.sel_table): inside the block of parent label P a resolver chooses, by comparing a LABEL PARAMETER
+   with the literal L, the single child it addresses through field f (cgi_model_address, cgi_particle_model_address).
+   The child labelled L under P is by definition the one the goto table pushes for (P, L): the fields must agree, so that
+   "the model of label L" addressed by label from its parent and reached by navigation is one node. *)
+Definition goto_field (tbl : list brow) (P L : string) : option string :=
+  match find_block tbl P with
+  | Some (Block _ _ arms) =>
+      match find_arm arms L with
+      | Some (Arm _ (a :: _)) => Some (alt_field a)
+      | _ => None
+      end
+  | _ => None
+  end.
+
+Definition sel_row_ok (tbl : list brow) (r : string * string * string * string) : bool :=
+  let '(_, P, L, f) := r in
+  match goto_field tbl P L with Some g => String.eqb f g | None => false end.
+
+Definition sel_table_ok (tbl : list brow) (t : list (string * string * string * string)) : bool :=
+  negb (Nat.eqb (List.length t) 0) && forallb (sel_row_ok tbl) t.
+
 (* diagnostics for the report: which rows fail *)
 Definition bad_arms (ss : structs_t) (tbl : list brow) : list (string * string) :=
   List.concat (map (fun b => match b with
@@ -694,7 +715,7 @@ Definition early_reject (o : op) (st : pstate) : bool :=
    meanwhile whether behaviour changed). *)
 Definition expected_shapes : list (string * string) := [
   ("cgi_add_posit", "{ if ( posit_depth == CG_MAX_GOTO_DEPTH ) { cgi_error(..) ; return CG_ERROR ; } posit_stack [ posit_depth ] . posit = pos ; strcpy ( posit_stack [ posit_depth ] . label , label ) ; posit_stack [ posit_depth ] . index = index ; posit_stack [ posit_depth ] . id = id ; posit = & posit_stack [ posit_depth ++ ] ; return CG_OK ; }");
-  ("cgi_update_posit", "{ int n , ierr ; double pid , id ; char lab [ 33 ] , name [ 33 ] ; if ( posit == 0 ) { cgi_error(..) ; return CG_ERROR ; } for ( n = 0 ; n < cnt ; n ++ ) { if ( strlen ( label [ n ] ) > 32 ) { posit = 0 ; cgi_error(..) ; return CG_ERROR ; } if ( index [ n ] > 0 ) { strcpy ( lab , label [ n ] ) ; * name = 0 ; } else if ( 0 == strcmp ( label [ n ] , ""."" ) ) { continue ; } else if ( 0 == strcmp ( label [ n ] , "".."" ) ) { if ( posit_depth == 1 ) { cgi_error(..) ; posit = 0 ; return CG_ERROR ; } if ( 0 == strcmp ( posit -> label , ""Zone_t"" ) ) posit_zone = 0 ; posit_depth -- ; posit = & posit_stack [ posit_depth - 1 ] ; continue ; } else { if ( cgi_posit_id ( & pid ) ) { posit = 0 ; return CG_ERROR ; } strcpy ( name , label [ n ] ) ; if ( cgio_get_node_id ( cg -> cgio , pid , name , & id ) ) { posit = 0 ; cgi_error(..) ; return CG_NODE_NOT_FOUND ; } if ( cgio_get_label ( cg -> cgio , id , lab ) ) { posit = 0 ; cg_io_error(..) ; return CG_ERROR ; } } ierr = cgi_next_posit ( lab , index [ n ] , name ) ; if ( ierr ) { if ( ierr == CG_INCORRECT_PATH ) { cgi_error(..) ; } if ( ierr == CG_NODE_NOT_FOUND ) { if ( index [ n ] > 0 ) cgi_error(..) ; else cgi_error(..) ; } posit = 0 ; return ierr ; } } return CG_OK ; }");
+  ("cgi_update_posit", "{ int n , ierr ; double pid , id ; char lab [ 33 ] , name [ 33 ] ; if ( posit == 0 ) { cgi_error(..) ; return CG_ERROR ; } cg = cgi_get_file ( posit_file ) ; if ( cg == 0 ) return CG_ERROR ; for ( n = 0 ; n < cnt ; n ++ ) { if ( strlen ( label [ n ] ) > 32 ) { posit = 0 ; cgi_error(..) ; return CG_ERROR ; } if ( index [ n ] > 0 ) { strcpy ( lab , label [ n ] ) ; * name = 0 ; } else if ( 0 == strcmp ( label [ n ] , ""."" ) ) { continue ; } else if ( 0 == strcmp ( label [ n ] , "".."" ) ) { if ( posit_depth == 1 ) { cgi_error(..) ; posit = 0 ; return CG_ERROR ; } if ( 0 == strcmp ( posit -> label , ""Zone_t"" ) ) posit_zone = 0 ; posit_depth -- ; posit = & posit_stack [ posit_depth - 1 ] ; continue ; } else { if ( cgi_posit_id ( & pid ) ) { posit = 0 ; return CG_ERROR ; } strcpy ( name , label [ n ] ) ; if ( cgio_get_node_id ( cg -> cgio , pid , name , & id ) ) { posit = 0 ; cgi_error(..) ; return CG_NODE_NOT_FOUND ; } if ( cgio_get_label ( cg -> cgio , id , lab ) ) { posit = 0 ; cg_io_error(..) ; return CG_ERROR ; } } ierr = cgi_next_posit ( lab , index [ n ] , name ) ; if ( ierr ) { if ( ierr == CG_INCORRECT_PATH ) { cgi_error(..) ; } if ( ierr == CG_NODE_NOT_FOUND ) { if ( index [ n ] > 0 ) cgi_error(..) ; else cgi_error(..) ; } posit = 0 ; return ierr ; } } return CG_OK ; }");
   ("cgi_set_posit", "{ cgns_base * base ; posit = 0 ; posit_file = posit_base = posit_zone = posit_depth = 0 ; cg = cgi_get_file ( fn ) ; if ( cg == 0 ) return CG_ERROR ; base = cgi_get_base ( cg , B ) ; if ( base == 0 ) return CG_NODE_NOT_FOUND ; posit_file = fn ; posit_base = B ; cgi_add_posit ( ( void * ) base , ""CGNSBase_t"" , B , base -> id ) ; return cgi_update_posit ( n , index , label ) ; }");
   ("cgi_posit_id", "{ if ( posit == 0 ) { cgi_error(..) ; return CG_ERROR ; } * posit_id = posit -> id ; return CG_OK ; }");
   ("vcg_goto", "{ int n ; int index [ CG_MAX_GOTO_DEPTH ] ; char * label [ CG_MAX_GOTO_DEPTH ] ; posit = 0 ; cg = cgi_get_file ( fn ) ; if ( cg == 0 ) return CG_ERROR ; for ( n = 0 ; n < CG_MAX_GOTO_DEPTH ; n ++ ) { label [ n ] = va_arg ( ap , char * ) ; if ( label [ n ] == NULL || label [ n ] [ 0 ] == 0 ) break ; if ( strcmp ( ""end"" , label [ n ] ) == 0 || strcmp ( ""END"" , label [ n ] ) == 0 ) break ; index [ n ] = va_arg ( ap , int ) ; } return cgi_set_posit ( fn , B , n , index , label ) ; }");
